@@ -4,7 +4,7 @@ TIER="${3:-quick}"
 IDS=$(python3 -c "import json;print(' '.join(c['property_id'] for c in json.load(open('MANIFEST.json'))['checks']))")
 for s in $(seq "$1" "$2"); do
   for id in $IDS; do
-    out=$(VERIF_SEED=$s VERIF_WRITE_EVIDENCE= ./check $id $TIER 2>&1); rc=$?
+    out=$(VERIF_SEED=$s ./check $id $TIER 2>&1); rc=$?
     if [ $rc -ne 0 ]; then echo "seed=$s id=$id rc=$rc"; echo "$out" | grep -E "scenario=|VIOLATION|HARNESS|HANG|error" | head -5; fi
   done
   echo "seed $s done"
